@@ -91,6 +91,7 @@ func main() {
 	runLines := func(lines []string) {
 		for _, c := range splitCases(lines) {
 			for _, l := range c {
+				out.Begin(l)
 				out.Emit(l, ex.exec(l))
 			}
 			out.Case(fmt.Sprint(c), true)
